@@ -86,8 +86,11 @@ func genB(t *rapid.T) BScript {
 	unit, lo := total, 1
 	if s.Sizer == "bytes" {
 		unit, lo = totalBytes, maxAlone+bytesSlack
-	} else if s.Signal == sig.Profiles && maxAlone > 1 {
-		lo = maxAlone
+		if maxAlone >= 2 && rapid.IntRange(0, 3).Draw(t, "smallmax") == 0 {
+			// some indivisible unit is larger than max_size
+			lo = rapid.IntRange(1, maxAlone+bytesSlack-1).Draw(t, "lo")
+			unit = 0
+		}
 	}
 	if rapid.IntRange(0, 4).Draw(t, "nomax") == 0 {
 		s.Max = 0
@@ -135,10 +138,6 @@ func runB(s BScript) (nontrivial bool, key string, f *vt.Finding) {
 		h.Write([]byte{0xff})
 	}
 	key = string(h.Sum(nil))
-	if r := s.asMS().risk(); r != "" {
-		cB.Exclude(r + "/" + s.Signal + "/" + s.Sizer)
-		return false, key, nil
-	}
 	cB.HangGuard(60*time.Second, s, "hang/batcher", func() {
 		nontrivial, f = runBInner(&s)
 	})
